@@ -55,14 +55,20 @@ func (b *B) Thorough() bool { return b.Tier == "thorough" }
 // numbers were sized for sub-second runs; the quick budget is 20-90 s).
 var QuickScale = 8
 
+// ThoroughScale: the thorough tier runs this many times the quick tier's case
+// count (budget: 3-20 minutes per property on 16 cores). The second argument of
+// N documents the planned order of magnitude and is a lower bound.
+var ThoroughScale = 12
+
 // N picks the case count for the tier.
 func (b *B) N(quick, thorough int) int {
-	if b.Thorough() {
-		return thorough
-	}
 	q := quick * QuickScale
-	if q > thorough {
-		q = thorough
+	if b.Thorough() {
+		t := q * ThoroughScale
+		if thorough > t {
+			t = thorough
+		}
+		return t
 	}
 	return q
 }
